@@ -48,29 +48,35 @@ def rename_in_function( text, fn, old, new ):
     return '\n'.join( lines )
 
 
+ONLY = None
+
 def baseline_keys():
     cli.load_rules()
     ctx = Ctx()
-    results, errors = cli.run_rules( ctx, sorted( RULES ))
+    results, errors = cli.run_rules( ctx, ONLY or sorted( RULES ))
     return { f.key for r in results.values() for f in r.findings }, set( e.split( ':' )[0] for e in errors )
 
 
 def probe( args ):
-    rel, qn, old, text, base_keys = args
+    rel, qn, old, text, base_keys, only = args
     cli.load_rules()
     ctx = Ctx( overrides={ rel: text } )
     try:
         compile( text, rel, 'exec' )
     except SyntaxError as exc:
         return ( rel, qn, old, 'SKIP-syntax %s' % exc, [] )
-    results, errors = cli.run_rules( ctx, sorted( RULES ))
+    results, errors = cli.run_rules( ctx, only or sorted( RULES ))
     new = [ f for r in results.values() for f in r.findings if f.key not in base_keys ]
     msgs = [ 'VIOLATION %s: %s' % ( f.rule, f.construct[:90] ) for f in new ] + [ 'ANALYSIS-ERROR ' + e[:140] for e in errors ]
     return ( rel, qn, old, 'ok' if not msgs else 'BAD', msgs )
 
 
 def main():
-    files = sys.argv[1:] or FILES
+    global ONLY
+    argv = sys.argv[1:]
+    if '--only' in argv:
+        i = argv.index( '--only' ); ONLY = argv[i+1].split( ',' ); del argv[i:i+2]
+    files = argv or FILES
     base_keys, base_err = baseline_keys()
     jobs = []
     for rel in files:
@@ -91,7 +97,7 @@ def main():
                     continue
                 if text == src.text:
                     continue
-                jobs.append(( rel, qn, old, text, base_keys ))
+                jobs.append(( rel, qn, old, text, base_keys, ONLY ))
     print( 'variants', len( jobs ))
     bad = 0
     with ProcessPoolExecutor( max_workers=14 ) as ex:
